@@ -100,6 +100,19 @@ class Summaries:
         k = ld.len_source(0)
         if k is not None and 1 <= k[0] <= g.argc:
             return ("len", k[0] - 1, k[1])
+        # indexing accessor: f(x, i) indexes x.<path>[i] unconditionally (entry block) with i a parameter
+        if g.argc >= 2 and len(g.blocks) <= 6:
+            b0 = g.blocks[0]
+            t0 = b0["t"]
+            if t0["k"] == "call" and (t0.get("callee") or "").endswith("ops::Index::index") and len(t0["args"]) == 2:
+                ck = ld.key_of_operand(t0["args"][0])
+                il = op_local(t0["args"][1])
+                src = il
+                for s in b0["s"]:
+                    if s["pl"]["l"] == il and s["rv"]["k"] == "use" and op_local(s["rv"]["op"]) is not None:
+                        src = op_local(s["rv"]["op"])
+                if ck is not None and 1 <= ck[0] <= g.argc and src is not None and 1 <= src <= g.argc and src != ck[0]:
+                    return ("index", ck[0] - 1, ck[1], src - 1)
         # f(x) = x.<path>.clone() / to_vec(): result has the same length
         ds0 = ld.defs.get(0, [])
         if len(ds0) == 1 and ds0[0][0] == "c":
@@ -133,6 +146,7 @@ class LengthDomain:
         self._key_cache = {}
         self.in_state = {}
         self.edge_facts = defaultdict(dict)   # (src, dst) -> {key: n}
+        self.edge_neq = defaultdict(dict)     # (src, dst) -> {key: c}  meaning len != c on that edge
         self._compute_edge_facts()
         self._solve()
 
@@ -240,7 +254,7 @@ class LengthDomain:
         rv = d[3]["rv"]
         if rv["k"] == "un" and rv["op"] in ("PtrMetadata", "Len"):
             return self.key_of_operand(rv["a"])
-        if rv["k"] == "use":
+        if rv["k"] == "use" or (rv["k"] == "cast" and "IntToInt" in rv.get("kind", "")):
             ol = op_local(rv["op"])
             p = op_place(rv["op"])
             if ol is not None and not p["p"]:
@@ -333,6 +347,9 @@ class LengthDomain:
                     n = self.implied_min(op, c, bool(v))
                     if n > 0:
                         self._add_edge(bb, tgt, key, n)
+                    # `len != c` on this edge: a lower bound of exactly c becomes c + 1
+                    if (op == "Ne" and bool(v)) or (op == "Eq" and not bool(v)):
+                        self.edge_neq[(bb, tgt)][key] = c
                 # otherwise edge: the remaining truth value
                 vals = {v for v, _ in arms}
                 if len(vals) == 1:
@@ -340,6 +357,8 @@ class LengthDomain:
                     n = self.implied_min(op, c, other)
                     if n > 0:
                         self._add_edge(bb, t["otherwise"], key, n)
+                    if (op == "Ne" and other) or (op == "Eq" and not other):
+                        self.edge_neq[(bb, t["otherwise"])][key] = c
             else:
                 key = self.len_source(dl)
                 if key is None:
@@ -450,6 +469,9 @@ class LengthDomain:
                 st = dict(out)
                 for k, v in self.edge_facts.get((bb, s), {}).items():
                     st[k] = max(st.get(k, 0), v)
+                for k, c in self.edge_neq.get((bb, s), {}).items():
+                    if st.get(k, 0) == c:
+                        st[k] = c + 1
                 if s not in self.in_state:
                     self.in_state[s] = st
                     work.append(s)
